@@ -8,7 +8,7 @@ CONSTANTS
  T = 1
  Strict = TRUE
  Mode = "byz"
- HonP <- PolysConst
- DevP <- PolysConst
+ HonP <- PolysOne
+ DevP <- PolysOne
 INVARIANTS NeverRecon
 CHECK_DEADLOCK FALSE
